@@ -40,8 +40,14 @@ def check_pass(ctx, fmt, n, seed, drv, top="random", uniform=None):
         if n >= 8:
             sw[:3] = [0, 1, 2]
             sw[3] = 3
-        if uniform is not None:
+        if uniform is not None and uniform != "blocks":
             sw[:] = uniform       # every line of the pass carries the same select value (a short pass cut inside a transition ...)
+        if uniform == "blocks":
+            # a LONG pass whose select value changes exactly at lines 1024 and 2048, with 3b and transition lines in equal number
+            # between them: no line's routing depends on any other line, however the pass is cut into pieces
+            sw[:1024] = 1
+            sw[1024:2048] = np.tile([0, 2], 512)
+            sw[2048:] = 0
         other = nprng.integers(0, 1 << 14, size=n) << 2
         pb.bitfield = (other | sw).astype(np.uint16)
         prt = nprng.integers(0, 1024, size=(n, 3))
@@ -117,6 +123,8 @@ def check_pass(ctx, fmt, n, seed, drv, top="random", uniform=None):
             ctx.violation("%s: dataset variable %s differs from the array accessor" % (fmt, nm), payload, cls="dataset:%s" % nm)
     # ---- model
     lines = list(range(n)) if (ctx.thorough or f["res"] == "gac") else list(range(min(n, 4)))
+    if n > 200:
+        lines = sorted(set([0, 1, n - 1] + [1023, 1024, 2047, 2048][: (4 if n > 2048 else 0)]))
     for l in lines:
         bf = int(pb.bitfield[l]) if fam == "klm" else -1
         drv.append(("c02line %d %d %s" % (f["width"], bf, ",".join(str(int(x)) for x in words[l])),
@@ -169,6 +177,9 @@ def run(ctx):
             plan += [("klmGac", 40, "random"), ("podGac", 40, "random"), ("klmLac", 16, "random"), ("podLac", 16, "random")]
     for k, (fmt, n, top) in enumerate(plan):
         check_pass(ctx, fmt, n, ctx.seed * 1000 + k, drv, top)
+        flush(ctx, drv)
+    if ctx.thorough or getattr(ctx, "escalated", False):
+        check_pass(ctx, "klmGac", 2100, ctx.seed * 1000 + 900, drv, "random", uniform="blocks")
         flush(ctx, drv)
     # passes of 1, 2 and 5 lines whose lines ALL carry the same channel-select value, every value 0..3
     for j, (fmt, n, u) in enumerate([(f_, n_, u_) for f_ in ("klmGac", "klmLac") for n_ in (1, 2, 5) for u_ in (0, 1, 2, 3)]):
